@@ -3,6 +3,7 @@
 package main
 
 import (
+	"fmt"
 	"go/ast"
 	"go/token"
 	"sort"
@@ -359,6 +360,59 @@ func c06StreamCreators(files []*ast.File) [][2]string {
 	return res
 }
 
+// c06TxShape describes how an exported DB mutator uses bbolt: the calls made
+// in its top-level statements BEFORE the statement holding db.Update (reads,
+// modifier applications or stores there would escape the transaction), and
+// the number of db.Update / db.View / db.Account… calls in the whole body.
+func c06TxShape(files []*ast.File, fn string) []string {
+	fd := findFunc(files, fn)
+	if fd == nil {
+		fail("clientdb.%s not found", fn)
+		return nil
+	}
+	calls := func(n ast.Node) []string {
+		var res []string
+		ast.Inspect(n, func(m ast.Node) bool {
+			if ce, ok := m.(*ast.CallExpr); ok {
+				res = append(res, exprString(ce.Fun))
+			}
+			return true
+		})
+		return res
+	}
+	has := func(xs []string, x string) bool {
+		for _, y := range xs {
+			if y == x {
+				return true
+			}
+		}
+		return false
+	}
+	var pre []string
+	seen := false
+	for _, st := range fd.Body.List {
+		cs := calls(st)
+		if has(cs, "db.Update") {
+			seen = true
+			break
+		}
+		pre = append(pre, cs...)
+	}
+	if !seen {
+		fail("clientdb.%s: no top-level statement with db.Update", fn)
+	}
+	updates, reads := 0, 0
+	for _, c := range calls(fd.Body) {
+		switch c {
+		case "db.Update":
+			updates++
+		case "db.View", "db.Account", "db.Accounts", "db.GetOrder", "db.GetOrders":
+			reads++
+		}
+	}
+	return []string{fn, strings.Join(pre, ","), fmt.Sprintf("updates=%d reads=%d", updates, reads)}
+}
+
 func leanPairList(xs [][2]string) string {
 	var q []string
 	for _, x := range xs {
@@ -437,6 +491,12 @@ func genC06() {
 	l.p("def updateOrderDecodes : List String := %s", leanStrList(c06CallbackDecodes(dbFiles, "updateOrder")))
 	l.p("def copyOrderDecodes : List String := %s", leanStrList(c06CallbackDecodes(dbFiles, "copyOrder")))
 	l.p("def getOrderDecodes : List String := %s", leanStrList(c06CallbackDecodes(dbFiles, "DB.GetOrder")))
+	var shapes [][]string
+	for _, fn := range []string{"DB.StorePendingBatch", "DB.MarkBatchComplete", "DB.DeletePendingBatch",
+		"DB.UpdateAccount", "DB.UpdateOrder", "DB.UpdateOrders", "DB.AddAccount", "DB.SubmitOrder", "DB.DeleteOrder"} {
+		shapes = append(shapes, c06TxShape(dbFiles, fn))
+	}
+	l.p("def txShapes : List (List String) := %s", leanArgLists(shapes))
 	l.p("def streamCreators : List (String × String) := %s", leanPairList(c06StreamCreators(aucFiles)))
 	l.p("def spendSwitch : List (String × String) := %s", leanPairList(spendSwitch(acctFiles)))
 	l.p("def accountStorePendingBatchCalls : List String := %s",
